@@ -320,6 +320,25 @@ Continue ==
   /\ scans' = [s \in DOMAIN scans |-> [scans[s] EXCEPT !.st = "dead"]]
   /\ UNCHANGED <<back, cfg, img, bk, held>>
 
+\* the harness damaged the tail of the newest segment of a closed directory beyond any crash model (data of
+\* acknowledged records cut away) and left a lock file: the recovering Open must come up with exactly what a
+\* validating reader of the documented format replays from the files (r.expect, computed by the independent
+\* decoder before the Open) and never with a pair that was not written (C08); the run goes on from there
+DamagedOpened(r) ==
+  /\ mode = "closed"
+  /\ Observed(r, r.kv)
+  /\ r.kv = r.expect
+  /\ r.recovered = TRUE
+  /\ Pairs(r.kv) \subseteq everPut
+  /\ kv' = r.kv /\ seq' = seq + 1
+  /\ ver' = [k \in DOMAIN r.kv |-> <<[s |-> seq + 1, val |-> SomeV(r.kv[k])]>>]
+  /\ acked' = [k \in DOMAIN r.kv |-> seq + 1]
+  /\ floor' = [k \in DOMAIN r.kv |-> seq + 1]
+  /\ mode' = "open" /\ closing' = FALSE /\ closedLin' = FALSE
+  /\ pend' = [t \in Threads |-> Idle]
+  /\ scans' = [s \in DOMAIN scans |-> [scans[s] EXCEPT !.st = "dead"]]
+  /\ UNCHANGED <<back, cfg, img, everPut, bk, held>>
+
 \* clean reopen after Close returned nil (C02): exactly the closed contents, no recovery
 OpenClean(r) ==
   /\ mode = "closed"
